@@ -117,6 +117,52 @@ pub fn case(input: &[Term]) -> Vec<(String, String)> {
     out
 }
 
+/// prefix check for vectors with many undecided positions: k undecided positions interleaved with decided ones
+pub fn prefix_case(k: usize) -> Vec<(String, String)> {
+    let mut out = vec![];
+    let mut v: Vec<Term> = vec![];
+    for i in 0..k {
+        v.push(Term(i % 2));
+        v.push(Term(if i % 2 == 0 { 2 } else { 12 }));
+    }
+    v.push(Term(1));
+    let want = 300usize;
+    for three in [false, true] {
+        let name = if three { "three-valued" } else { "two-valued" };
+        let r = guard(|| {
+            if three {
+                ThreeValuedInterpretationsIterator::new(&v).take(want).collect::<Vec<_>>()
+            } else {
+                TwoValuedInterpretationsIterator::new(&v).take(want).collect::<Vec<_>>()
+            }
+        });
+        match r {
+            Err(m) => out.push((format!("{}:panic", name), m)),
+            Ok(items) => {
+                if items.len() < want {
+                    out.push((format!("{}:ends-early", name), format!("the iterator ended after {} items although there are far more", items.len())));
+                }
+                let set: BTreeSet<Vec<usize>> = items.iter().map(|x| show(x)).collect();
+                if set.len() != items.len() {
+                    out.push((format!("{}:duplicate", name), "an item is yielded twice within the first 300".into()));
+                }
+                for it in &items {
+                    let ok = it.len() == v.len()
+                        && it.iter().zip(v.iter()).all(|(a, b)| if b.is_truth_value() { a == b } else if three { a.is_truth_value() || a == b } else { a.is_truth_value() });
+                    if !ok {
+                        out.push((format!("{}:not-a-completion", name), "an item changes a decided position or is not a completion/refinement".into()));
+                        break;
+                    }
+                }
+                if three && items.first().map(|x| show(x)) != Some(show(&v)) {
+                    out.push(("three-valued:first".into(), "the first item is not the interpretation itself".into()));
+                }
+            }
+        }
+    }
+    out
+}
+
 pub fn run_c20(run: &Run) {
     run.set_rule("every vector over {false, true, Term(2), Term(12)} of every length 0..L (L = 7 quick, 9 thorough); both public iterators are collected and compared as multisets with the 2^k completions / 3^k refinements computed independently. Non-trivial: vectors with >= 1 undecided and >= 1 decided position.");
     run.assume("lengths above the bound are not explored; after the first None the iterators are polled twice more and must stay exhausted (each completion exactly once also for a consumer that polls again)");
@@ -145,6 +191,99 @@ pub fn run_c20(run: &Run) {
             run.add_counts(st.0, st.1, st.0 * 2, st.2);
         }
     }
+    // long vectors: 60-130 positions with up to three undecided ones placed around the positions 31/32, 63/64, 127/128
+    {
+        let spots: Vec<usize> = vec![0, 1, 30, 31, 32, 33, 62, 63, 64, 65, 100, 126, 127, 128, 129];
+        let mut cases: Vec<Vec<Term>> = vec![];
+        for len in [60usize, 64, 65, 70, 128, 130] {
+            for (ai, a) in spots.iter().enumerate() {
+                for b in spots.iter().skip(ai) {
+                    for c in [*b, len - 1] {
+                        if *a >= len || *b >= len || c >= len {
+                            continue;
+                        }
+                        let mut v: Vec<Term> = (0..len).map(|i| Term(i % 2)).collect();
+                        v[*a] = Term(2);
+                        v[*b] = Term(12);
+                        v[c] = Term(7);
+                        cases.push(v);
+                    }
+                }
+            }
+        }
+        let res = run.par_family(
+            &format!("long vectors (60-130 positions, <= 3 undecided ones around 32 / 64 / 128): {}", cases.len()),
+            cases.len() as u64,
+            || 0u64,
+            |st, k| {
+                *st += 1;
+                let v = &cases[k as usize];
+                for (kind, msg) in case(v) {
+                    run.violation(&kind, format!("{} on a vector of length {} with undecided positions {:?}", msg, v.len(), (0..v.len()).filter(|i| !v[*i].is_truth_value()).collect::<Vec<_>>()), json!({"type": "interp", "vector": show(v)}));
+                }
+            },
+            &|k| json!({"type": "interp", "vector": show(&cases[k as usize])}),
+        );
+        for st in res {
+            run.add_counts(st, st * 35, st * 2, st);
+        }
+    }
+    // very long vectors (beyond 65536 positions) with <= 3 undecided positions around the 2^16 boundary
+    {
+        let mut cases: Vec<Vec<Term>> = vec![];
+        for len in [65536usize, 65537, 70000] {
+            for und in [vec![65535usize], vec![65536], vec![0, 65536], vec![65535, 65536, 69999], vec![len - 1], vec![1, len - 2, len - 1]] {
+                if und.iter().any(|p| *p >= len) {
+                    continue;
+                }
+                let mut v: Vec<Term> = (0..len).map(|i| Term((i / 3) % 2)).collect();
+                for (j, p) in und.iter().enumerate() {
+                    v[*p] = Term([2, 12, 7][j % 3]);
+                }
+                cases.push(v);
+            }
+        }
+        let res = run.par_family(
+            &format!("very long vectors (65536-70000 positions, <= 3 undecided ones around position 65536): {}", cases.len()),
+            cases.len() as u64,
+            || 0u64,
+            |st, k| {
+                *st += 1;
+                run.heartbeat();
+                let v = &cases[k as usize];
+                for (kind, msg) in case(v) {
+                    let und: Vec<usize> = (0..v.len()).filter(|i| !v[*i].is_truth_value()).collect();
+                    run.violation(&kind, format!("{} on a vector of length {} with undecided positions {:?}", msg.chars().take(300).collect::<String>(), v.len(), und), json!({"type": "interp-long", "len": v.len(), "undecided": und}));
+                }
+            },
+            &|k| json!({"type": "interp-long", "len": cases[k as usize].len()}),
+        );
+        for st in res {
+            run.add_counts(st, st * 35, st * 2, st);
+        }
+    }
+    // many undecided positions (31 ... 130): the 2^k / 3^k items cannot be enumerated, so a prefix of 300 items is
+    // checked: the iterator must not end, every item must be a completion / refinement, all items distinct, decided
+    // positions untouched
+    {
+        let ks = [9usize, 31, 32, 33, 63, 64, 65, 66, 100, 130];
+        let res = run.par_family(
+            "many undecided positions (9-130): prefix of 300 items of both iterators",
+            ks.len() as u64,
+            || 0u64,
+            |st, i| {
+                *st += 1;
+                let k = ks[i as usize];
+                for (kind, msg) in prefix_case(k) {
+                    run.violation(&kind, format!("{} ({} undecided positions)", msg, k), json!({"type": "interp-prefix", "undecided": k}));
+                }
+            },
+            &|i| json!({"type": "interp-prefix", "undecided": ks[i as usize]}),
+        );
+        for st in res {
+            run.add_counts(st, st * 600, st * 2, st);
+        }
+    }
     run.add_outcomes((0..=maxlen as u64).map(|k| k)); // distinct numbers of undecided positions seen
     run.sample(json!({"vector": [1, 2, 0, 12, 1], "two_valued_items": 4, "three_valued_items": 9}));
     run.sample(json!({"vector": show(&vector(7, 12345))}));
@@ -153,6 +292,22 @@ pub fn run_c20(run: &Run) {
 }
 
 pub fn replay(case_v: &Value) -> Vec<(String, String)> {
+    if case_v["type"] == "interp-prefix" {
+        return prefix_case(case_v["undecided"].as_u64().unwrap_or(64) as usize);
+    }
+    if case_v["type"] == "interp-long" {
+        let len = case_v["len"].as_u64().unwrap_or(65537) as usize;
+        let mut v: Vec<Term> = (0..len).map(|i| Term((i / 3) % 2)).collect();
+        if let Some(u) = case_v["undecided"].as_array() {
+            for (j, p) in u.iter().enumerate() {
+                let p = p.as_u64().unwrap_or(0) as usize;
+                if p < len {
+                    v[p] = Term([2, 12, 7][j % 3]);
+                }
+            }
+        }
+        return case(&v);
+    }
     let v: Vec<Term> = case_v["vector"]
         .as_array()
         .map(|a| a.iter().map(|x| Term(x.as_u64().unwrap_or(0) as usize)).collect())
